@@ -33,6 +33,31 @@ OBS_OPS = {
 }
 
 
+def _views(d, h):
+    """(label, thunk building the view through the public API, expected element names)."""
+    out = []
+    if d["kind"] == "vector" and d["n"] >= 2:
+        n = d["n"]
+        nm = [f"{d['name']}[{i}]" for i in range(n)]
+        out.append(("[0:2]", lambda: h[0:2], nm[0:2]))
+        out.append(("[1:]", lambda: h[1:n], nm[1:n]))
+        out.append(("[::2]", lambda: h[::2], nm[::2]))
+        out.append(("[::-1]", lambda: h[::-1], nm[::-1]))
+    elif d["kind"] == "matrix":
+        R, C = d["rows"], d["cols"]
+        nm = [[S.mel_name(d, i, j) for j in range(C)] for i in range(R)]
+        out.append((".T", lambda: h.T, [[nm[i][j] for i in range(R)] for j in range(C)]))
+        out.append((".T.T", lambda: h.T.T, nm))
+        out.append(("[R-1,:]", lambda: h[R - 1, :], nm[R - 1]))
+        out.append(("[:,C-1]", lambda: h[:, C - 1], [nm[i][C - 1] for i in range(R)]))
+        out.append((".T[0,:]", lambda: h.T[0, :], [nm[i][0] for i in range(R)]))
+        if R == C:
+            out.append(("diag", lambda: h.diagonal(), [nm[i][i] for i in range(R)]))
+        if C >= 2:
+            out.append(("[0:R,1:C]", lambda: h[0:R, 1:C], [row[1:C] for row in nm]))
+    return out
+
+
 def _same(a, b):
     return a == b or (a != a and b != b)
 
@@ -317,6 +342,7 @@ class Executor:
             rec["ref2"] = self.ref_ops(op[1], op, as_constants=True)
         if k == "solve" and op[2].get("r2"):
             rec["ref2"] = self.ref_ops(op[1], op, as_constants=True)
+            rec["r2_convex"] = op[2]["r2"] == "convex"
         # abstract cache state, for reach measurement only (never used by an oracle)
         rec["abs"] = [
             getattr(P, "_variables", None) is not None,
@@ -449,6 +475,17 @@ class Executor:
                 ok = False
             if not ok:
                 hbad.append(d["name"])
+            # views of the same container: slices (also strided / reversed), rows, columns,
+            # diagonal, transpose, sub-matrix -- expected positions come from the spec, not from optyx
+            for label, view, want in _views(d, h):
+                try:
+                    got = np.asarray(sol[view()], dtype=float)
+                    w = np.array([[vals[n] for n in row] for row in want], dtype=float) if want and isinstance(want[0], list) else np.array([vals[n] for n in want], dtype=float)
+                    ok = got.shape == w.shape and bool(np.all((got == w) | (np.isnan(got) & np.isnan(w))))
+                except Exception:  # noqa: BLE001
+                    ok = False
+                if not ok:
+                    hbad.append(f"{d['name']}:{label}")
         out["handles_bad"] = hbad
         return out
 
